@@ -10,13 +10,18 @@ PROPS["C13"] = dict(
     streams=[
         dict(name="htlc", quick=48, thorough=1200, check_module="Queues.CheckHtlc", check_fn="check_htlc", case_type="hcase", coq_shard=6,
              codes={11: "htlc.begin-block-abort", 12: "htlc.queue-hygiene", 13: "htlc.refund-not-exactly-once-at-expiry"}),
+        dict(name="random", quick=64, thorough=1600, check_module="Queues.CheckRandom", check_fn="check_random", case_type="rcase", coq_shard=8,
+             codes={21: "random.begin-block-abort", 22: "random.queue-hygiene", 23: "random.request-not-fulfilled-at-due-height"}),
     ],
     rule="per module one stream of histories interleaving object creation / modification / closing with block "
          "boundaries (block times advancing by 1..10^5 s), several objects due at one height, operations attempted in "
          "the block an object falls due; non-trivial = an object is modified or closed (or that is attempted) in the "
          "block it falls due or the block before, or >= 2 objects fall due together; distinct = by hash of the history",
     codes={},
-    explain={11: "the HTLC begin-blocker aborted", 12: "HTLC expiry queue and open contracts are not in bijection at their expiration heights",
+    explain={21: "the random begin-blocker aborted in a block whose time is not 0",
+             22: "random request queue: an entry behind the current height (never drained), or an entry lost / appearing outside its block",
+             23: "a drained plain request has no random number of that height, or a drained oracle request was not handed to the service module",
+             11: "the HTLC begin-blocker aborted", 12: "HTLC expiry queue and open contracts are not in bijection at their expiration heights",
              13: "an HTLC was refunded in a block other than its expiration height, or a closed HTLC changed again"},
     trusted_base=["ids (SHA-256) are interned: equal bytes <-> equal number; the model never hashes",
                   "money-dependent branch outcomes (bank, asset limits, secrets, provider prices) enter the queue models as boolean inputs "
